@@ -318,9 +318,9 @@ pub fn groups(property: &str, tier: &str, seed: u64) -> Vec<Group> {
     let profiles = crate::generate::profiles();
     for i in 0..n_gen {
         let profile = match property {
-            "C14" => ["names", "kern", "names", "mixed", "kern", "composites"][i % 6],
+            "C14" => ["names", "kern", "names", "mixed", "kern", "composites", "features"][i % 7],
             // C15 judges by a CPU bound: keep its generated sources small
-            "C15" => ["names", "kern", "composites", "mixed"][i % 4],
+            "C15" => ["names", "kern", "composites", "mixed", "features"][i % 5],
             _ => profiles[i % profiles.len()],
         };
         // generated sources are rich in mixed and nested composites: make sure the component
